@@ -2,7 +2,7 @@
 Require Extraction.
 Require Import ExtrOcamlBasic.
 From Coq Require Import ZArith NArith.
-From Astisub Require Import Kit.Base Kit.Str Kit.Float64 Kit.Scan Kit.Html Model.Ops Model.Dur Model.Lin Model.Srt Model.Files Model.Vtt Model.Conv Model.ConvOps Model.Plain Model.PlainOps Model.Cli Model.TtxRow Model.Ttx Model.TtxSpec Model.Ssa Kit.Float64x Kit.Xml Model.Ttml Kit.XmlParse Kit.Utf8 Model.Stl Model.PlainSsa Model.PlainStl Kit.IOW Model.StlIO Model.PlainTtml Model.TtmlOpt.
+From Astisub Require Import Kit.Base Kit.Str Kit.Float64 Kit.Scan Kit.Html Model.Ops Model.Dur Model.Lin Model.Srt Model.Files Model.Vtt Model.Conv Model.ConvOps Model.Plain Model.PlainOps Model.Cli Model.TtxRow Model.Ttx Model.TtxSpec Model.Ssa Kit.Float64x Kit.Xml Model.Ttml Kit.XmlParse Kit.Utf8 Model.Stl Model.PlainSsa Model.SrtC Model.VttC Model.PlainStl Kit.IOW Model.StlIO Model.PlainTtml Model.TtmlOpt.
 Extraction "model.ml"
   Z.add Z.mul Z.opp Z.div Z.modulo Z.of_N Z.to_N N.add N.mul
   order merge add_dur force_duration fragment unfragment optimize remove_styling item_text
@@ -10,6 +10,7 @@ Extraction "model.ml"
   trim_space split_byte atoi itoa_z fields
   lin linear_correction frac_float
   lines scan read_n tokenize html_simple
+  read_srt_c read_srt_lines_c write_srt_c read_vtt_c read_vtt_lines_c write_vtt_c
   read_srt read_srt_lines write_srt parse_text_srt escape_html unescape_html
   reader_for writer_for
   read_vtt write_vtt parse_text_vtt vtt_line_simple
